@@ -77,9 +77,24 @@ func splitTopCommas(s string) []string {
 	return out
 }
 
+// AtClause: `at "<anchor text>" with (name Type, ...) do <Go statements>`.
+type AtClause struct {
+	Anchor   string
+	Names    []string
+	Types    []string
+	Body     string
+	SynName  string
+	Fn       *ssa.Function
+	File     string
+	Line     int
+	AnchorLine int // resolved source line in the target function's file
+}
+
 type LoopSpec struct {
 	Vars     []string // "name" or "cell:name"
 	VarTypes []string
+	Locals   []string // non-loop-carried local variables (by source name) made available to loop clauses
+	LocalTypes []string
 	Inv      []*Clause
 	Dec      *Clause
 }
@@ -100,6 +115,7 @@ type Block struct {
 	Modifies []string
 	Fuel     int
 	PanicsAssumed string
+	At       []*AtClause // ghost statements executed before the first instruction of an anchored source line
 	GhostInc []*Clause // ghost counter events: Callee field holds the counter name
 	AssumeKinds map[string]string // obligation kinds assumed in this unit, with the stated reason
 	LoopInvAll []*Clause // invariants of every loop (rules)
@@ -490,6 +506,37 @@ func parseBlocks(fset *token.FileSet, path string, src []byte, pkgPath string) (
 					return nil, fmt.Errorf("%s:%d: bad fuel", path, line)
 				}
 				cur.Fuel = n
+			case "at":
+				// at "anchor" with (a T, b U) do stmt; stmt
+				r := strings.TrimSpace(rest)
+				if !strings.HasPrefix(r, "\"") {
+					return nil, fmt.Errorf("%s:%d: at needs a quoted anchor", path, line)
+				}
+				e := strings.Index(r[1:], "\"")
+				if e < 0 {
+					return nil, fmt.Errorf("%s:%d: unterminated anchor", path, line)
+				}
+				ac := &AtClause{Anchor: r[1 : 1+e], File: path, Line: line}
+				r = strings.TrimSpace(r[2+e:])
+				if strings.HasPrefix(r, "with") {
+					r = strings.TrimSpace(r[4:])
+					ce := strings.Index(r, ")")
+					for _, pv := range splitTopCommas(strings.TrimPrefix(r[:ce], "(")) {
+						pv = strings.TrimSpace(pv)
+						if pv == "" {
+							continue
+						}
+						nm, ty := splitWord(pv)
+						ac.Names = append(ac.Names, nm)
+						ac.Types = append(ac.Types, ty)
+					}
+					r = strings.TrimSpace(r[ce+1:])
+				}
+				if !strings.HasPrefix(r, "do ") {
+					return nil, fmt.Errorf("%s:%d: at ... do <statements>", path, line)
+				}
+				ac.Body = strings.TrimSpace(r[3:])
+				cur.At = append(cur.At, ac)
 			case "ghost-inc":
 				name, rest2 := splitWord(rest)
 				kw, cond := splitWord(rest2)
@@ -590,6 +637,19 @@ func parseBlocks(fset *token.FileSet, path string, src []byte, pkgPath string) (
 						}
 						ls.Vars = append(ls.Vars, nm)
 						ls.VarTypes = append(ls.VarTypes, ty)
+					}
+				case "locals":
+					r := strings.TrimSpace(rest3)
+					r = strings.TrimPrefix(r, "(")
+					r = strings.TrimSuffix(r, ")")
+					for _, v := range splitTopCommas(r) {
+						v = strings.TrimSpace(v)
+						if v == "" {
+							continue
+						}
+						nm, ty := splitWord(v)
+						ls.Locals = append(ls.Locals, nm)
+						ls.LocalTypes = append(ls.LocalTypes, ty)
 					}
 				case "invariant":
 					cl, err := mk(KInvariant, rest3, n)
@@ -800,6 +860,18 @@ func synthesize(blocks []*Block, counter *int) string {
 		for _, cl := range blk.GhostInc {
 			emit(blk, cl, nil, nil, false, "bool")
 		}
+		for _, ac := range blk.At {
+			*counter++
+			ac.SynName = fmt.Sprintf("__c%d_at", *counter)
+			var ps []string
+			for i, n := range blk.ParamNames {
+				ps = append(ps, n+" "+blk.ParamTypes[i])
+			}
+			for i, n := range ac.Names {
+				ps = append(ps, n+" "+ac.Types[i])
+			}
+			fmt.Fprintf(&b, "//line %s:%d\nfunc %s(%s) { %s }\n", ac.File, ac.Line, ac.SynName, strings.Join(ps, ", "), ac.Body)
+		}
 		if blk.Dec != nil {
 			emit(blk, blk.Dec, nil, nil, false, "int")
 		}
@@ -814,11 +886,13 @@ func synthesize(blocks []*Block, counter *int) string {
 			for _, v := range ls.Vars {
 				names = append(names, strings.TrimPrefix(v, "cell:"))
 			}
+			allNames := append(append([]string{}, names...), ls.Locals...)
+			allTypes := append(append([]string{}, ls.VarTypes...), ls.LocalTypes...)
 			for _, cl := range ls.Inv {
-				emit(blk, cl, names, ls.VarTypes, false, "bool")
+				emit(blk, cl, allNames, allTypes, false, "bool")
 			}
 			if ls.Dec != nil {
-				emit(blk, ls.Dec, names, ls.VarTypes, false, "int")
+				emit(blk, ls.Dec, allNames, allTypes, false, "int")
 			}
 		}
 		for _, cl := range blk.Callsite {
@@ -1087,6 +1161,29 @@ func Load(repo string, patterns []string) (*Loaded, error) {
 		for _, cl := range cls {
 			if err := bind(cl); err != nil {
 				return nil, err
+			}
+		}
+		for _, ac := range b.At {
+			ac.Fn = sp.Func(ac.SynName)
+			if ac.Fn == nil {
+				return nil, fmt.Errorf("%s:%d: synthetic at-function missing", ac.File, ac.Line)
+			}
+			// resolve the anchor to a source line of the target function
+			pos := prog.Fset.Position(fn.Pos())
+			src, err := os.ReadFile(pos.Filename)
+			if err != nil {
+				return nil, err
+			}
+			lines := strings.Split(string(src), "\n")
+			ac.AnchorLine = 0
+			for ln := pos.Line; ln <= len(lines); ln++ {
+				if strings.Contains(lines[ln-1], ac.Anchor) {
+					ac.AnchorLine = ln
+					break
+				}
+				if ln > pos.Line && strings.HasPrefix(lines[ln-1], "}") {
+					break
+				}
 			}
 		}
 	}
